@@ -55,7 +55,8 @@ def run(rep, tier, seed):
     scratch = os.path.join(work, "data")
     os.makedirs(scratch)
     n = 1500 if thorough else 150
-    args = [binp, "-seed", str(seed), "-n", str(n), "-per", "4" if thorough else "3", "-out", trace, "-meta", meta, "-dir", scratch]
+    args = [binp, "-seed", str(seed), "-n", str(n), "-per", "4" if thorough else "3", "-out", trace, "-meta", meta, "-dir", scratch,
+            "-chunker", "1500" if thorough else "200"]
     p = vlib.sh(args, timeout=3400, check=False)
     if p.returncode != 0:
         raise vlib.Infra("driver c02 failed:\n" + p.stdout[-3000:])
